@@ -1448,6 +1448,9 @@ class xRFM:
                 leaf_model = RFM(**self.rfm_params['model'],
                                  categorical_info=self.categorical_info,
                                  device=self.device, verbose=self.verbose, **self.extra_rfm_params_)
+                if self.solver is not None:
+                    # a solver given with the fit parameters reaches a leaf only through fit(); prediction depends on it (log_reg)
+                    leaf_model.solver = self.solver
                 leaf_model.kernel_obj.bandwidth = tree['bandwidth']
                 leaf_model.weights = tree['weights']
                 leaf_model.M = tree['M']
